@@ -191,6 +191,18 @@ Theorem indptr_splice_wf :
     /\ length (splice members) = S (fold_right (fun m s => (length (fst m) - 1 + s)%nat) 0%nat members).
 Proof. exact indptr_splice_wf_proof. Qed.
 
+(* the dtype rule of the GCXS joiners (`needed = max(total_nnz, indptr.shape[0] - 1)`, generated): the
+   number the index pointer is widened for bounds all its entries and all row numbers, so neither can wrap *)
+Theorem indptr_needed_bounds :
+  forall members : list (list Z * Z),
+    members <> [] -> Forall (fun m => indptr_ok (fst m) (snd m)) members ->
+    exists needed,
+      indptr_needed site_gcxs_concatenate_indptr_needed members = Ok needed
+      /\ indptr_needed site_gcxs_stack_indptr_needed members = Ok needed
+      /\ Forall (fun v => 0 <= v <= needed) (splice members)
+      /\ Z.of_nat (length (splice members)) - 1 <= needed.
+Proof. exact indptr_needed_bounds_proof. Qed.
+
 Theorem diagonal_den_refuted :
   exists (x : coo Z) (offset axis1 axis2 : Z) (a1 a2 : nat),
     cwf Z x /\ np_norm_axis axis1 (ndim_of Z x) = Some a1 /\ np_norm_axis axis2 (ndim_of Z x) = Some a2 /\ a1 <> a2
@@ -217,4 +229,5 @@ Print Assumptions take_int_den.
 Print Assumptions take_list_den.
 Print Assumptions indptr_splice_spec.
 Print Assumptions indptr_splice_wf.
+Print Assumptions indptr_needed_bounds.
 Print Assumptions diagonal_den_refuted.
